@@ -63,7 +63,7 @@ def pick(rng, xs, k):
 def c04(tier, seed):
     rng = random.Random(seed * 7919 + 4)
     styles = []
-    codes = [0, 1, 255, 256, 65535, 1 << 31, (1 << 32) - 1]
+    codes = [0, 1, 255, 256, 0x10C, 65535, 1 << 31, (1 << 32) - 1]
     reasons = [b"", b"x", "grüß \U0001F44B".encode(), b"r" * 1023, b"r" * 1024]
     for c in codes:
         for r in reasons:
@@ -88,7 +88,8 @@ def c04(tier, seed):
     styles.append(("bad_capsule", {"bytes": close_capsule_frame(1, b"\xe2\x82")}))
     styles.append(("bad_capsule", {"bytes": frame(0, capsule(0x2843, b"\x00\x00\x01"))}))
     styles.append(("bad_capsule", {"bytes": frame(0, capsule(0x2843, b""))}))
-    for c in [0, 63, 64, 16383, 16384, (1 << 30) - 1, 1 << 30, (1 << 32) + 12345, (1 << 40) + 7, (1 << 62) - 1]:
+    # (incl. values that coincide with HTTP/3 error codes: an application code is never reinterpreted)
+    for c in [0, 63, 64, 0x100, 0x101, 0x10C, 0x33, 16383, 16384, (1 << 30) - 1, 1 << 30, (1 << 32) + 12345, (1 << 40) + 7, (1 << 62) - 1]:
         for r in [b"", b"bye", bytes(range(256))[:200]]:
             styles.append(("quic_close", {"code": c, "reason": list(r)}))
     points = ["pending", "streams", "later_only", "idle_long"]
@@ -163,6 +164,7 @@ def c01(tier, seed):
         out.append(s)
         n += 1
 
+    napi = [0]
     # (i) two wtransport endpoints
     lens_small = [0, 1, 2, 63, 64, 65, 16383, 16384, 65536]
     lens_big = [W - 1, W, W + 1, 3 * W]
@@ -192,11 +194,15 @@ def c01(tier, seed):
                 salt = rng.randrange(200)
                 op_open = "open_" + kind
                 op_acc = "accept_" + kind
+                # which of the stream's interfaces carries the bytes (own methods / tokio traits / vectored)
+                napi[0] += 1
+                wapi = ["", "tokio", "vectored"][napi[0] % 3]
+                rapi = ["", "tokio"][(napi[0] // 3) % 2]
                 steps = [step("app", op_open, tag="s"),
                          step("app", "spawn", op="write", tag="s", len=ln, salt=salt, chunk=chunk,
-                              then_finish=True, ms=20000),
+                              then_finish=True, ms=20000, api=wapi),
                          step("app2", op_acc, tag="s", ms=5000),
-                         step("app2", "read", tag="s", buf=buf, salt=salt, ms=20000)]
+                         step("app2", "read", tag="s", buf=buf, salt=salt, ms=20000, api=rapi)]
                 if kind == "bi":
                     # the return direction carries no preamble
                     salt2 = salt + 1
@@ -207,7 +213,8 @@ def c01(tier, seed):
                 steps += [step("app", "await", tag="s", ms=20000)]
                 if kind == "bi":
                     steps += [step("app2", "await", tag="s", ms=20000)]
-                add(role, "wt", steps, {"family": "wt-wt", "kind": kind, "len": ln, "chunk": chunk, "buf": buf})
+                add(role, "wt", steps, {"family": "wt-wt", "kind": kind, "len": ln, "chunk": chunk, "buf": buf,
+                                        "wapi": wapi or "own", "rapi": rapi or "own"})
     # concurrent streams
     for role in ("client", "server"):
         for nstreams in ([2, 8] if tier == "quick" else [2, 8, 40]):
@@ -238,6 +245,26 @@ def c01(tier, seed):
                           step("app", "write", tag="o%d" % k, len=29 + k, salt=20 + k, chunk=7, then_finish=True, ms=8000)]
             steps.append(sleep(300))
             add(role, "raw", steps, {"family": "tiny-window", "window": win}, {"peer_stream_window": win})
+    # (i-b) a window smaller than one vectored write: some slices are accepted, the next one is not
+    for role in ("client", "server"):
+        for api in ("vectored", "tokio"):
+            steps = [step("app", "open_uni", tag="v", ms=8000),
+                     step("app", "write", tag="v", len=32000, salt=31, chunk=0, api=api, then_finish=True, ms=10000),
+                     step("app", "open_bi", tag="w", ms=8000),
+                     step("app", "write", tag="w", len=41000, salt=32, chunk=23000, api=api, then_finish=True, ms=10000),
+                     sleep(300)]
+            add(role, "raw", steps, {"family": "window-vs-vectored", "window": 10000, "api": api}, {"peer_stream_window": 10000})
+    # (i-c) the BiStream adapter: write and shut down through its AsyncWrite side, read the answer to the
+    # end through its AsyncRead side while the object stays alive
+    for role in ("client", "server"):
+        for ln in (0, 50, 70000):
+            steps = [step("app", "open_bi", tag="s"),
+                     step("app", "spawn", op="bistream", tag="s", len=ln, salt=7, rsalt=8, ms=10000),
+                     step("app2", "accept_bi", tag="s", ms=5000),
+                     step("app2", "read", tag="s", buf=4096, salt=7, ms=8000),
+                     step("app2", "write", tag="s", len=20 + ln // 3, salt=8, then_finish=True, ms=8000),
+                     step("app", "await", tag="s", ms=12000)]
+            add(role, "wt", steps, {"family": "bistream", "len": ln})
     # (ii) raw peer writes a WebTransport stream whose preamble is cut at every position
     payload = [0x54, 0x00, 0x41, 0x00, 0x40, 0x54, 9, 8, 7]     # looks like preambles itself
     variants = [("server", 0), ("client", 0), ("server", 64)] + ([("server", 4096)] if tier == "thorough" else [])
@@ -812,6 +839,13 @@ def _c12(tier, seed, burn):
                       [by["unknown_uni3"], byb["get_request"]]]
         for p in pairs:
             build(role, p, {"depth": 2})
+        # reserved / unknown stream types left OPEN in numbers beyond any internal queue: they must not
+        # hold anything that later streams need
+        g_open = ("open_uni", "grease_open", varint(GREASE_T[1]) + [1, 2, 3], "open")
+        u_open = ("open_uni", "unknown_open", varint(UNKNOWN_STREAM_T[1]) + [4, 5], "open")
+        for seq in ([g_open] * 5 + [by["wt_live"]], [u_open] * 5 + [by["wt_live"]],
+                    [g_open, u_open] * 3 + [by["wt_live"], byb["wt_live"]]):
+            build(role, list(seq), {"depth": len(seq)})
         # the peer's control stream from its first byte (no automatic SETTINGS): what may and may not
         # come first.  Every write is one piece (segmentation is C05's subject).
         if burn == 0:
@@ -1128,6 +1162,30 @@ def c08(tier, seed):
                     "meta": {"prop": "C08", "n": total, "tasks": tasks, "cancel_ms": cancel or 0, "delay_ms": delay},
                     "steps": steps})
         n += 1
+    # accept futures polled exactly once and dropped when not ready, then reissued (cancel safety)
+    once = [(peer, role, total, pause) for peer in ("raw", "wt") for role in ("server", "client")
+            for total in (6, 16, 40) for pause in (1, 3)]
+    if tier == "quick":
+        once = pick(rng, once, 8)
+    for (peer, role, total, pause) in once:
+        n_uni, n_bi = total - total // 3, total // 3
+        opener = "peer" if peer == "raw" else "app2"
+        steps = []
+        if peer == "raw":
+            steps += [step("peer", "open_n", tag="ou", kind="uni", n=n_uni, sid=v62(0), ms=25000),
+                      step("peer", "open_n", tag="ob", kind="bi", n=n_bi, sid=v62(0), ms=25000)]
+        else:
+            steps += [step("app2", "spawn", op="open_n_uni", tag="ou", n=n_uni, ms=25000),
+                      step("app2", "spawn", op="open_n_bi", tag="ob", n=n_bi, ms=25000)]
+        budget = 6000 + total * 60
+        steps += [step("app", "spawn", op="accept_n_uni", tag="au", n=n_uni, poll_once=True, cancel_ms=pause, ms=budget),
+                  step("app", "spawn", op="accept_n_bi", tag="ab", n=n_bi, poll_once=True, cancel_ms=pause, ms=budget),
+                  step(opener, "await", tag="ou", ms=30000), step(opener, "await", tag="ob", ms=30000),
+                  step("app", "await", tag="au", ms=budget + 2000), step("app", "await", tag="ab", ms=budget + 2000)]
+        out.append({"scn": "C08-%04d" % n, "role": role, "peer": peer,
+                    "meta": {"prop": "C08", "n": total, "tasks": 1, "poll_once": True, "cancel_ms": pause, "delay_ms": 0},
+                    "steps": steps})
+        n += 1
     # several tasks blocked in accept *before* the streams exist, each waiting for its own share
     # in one uninterrupted await: every one of them has to be woken
     quota_plans = [(peer, role, tasks, q, kind) for peer in ("raw", "wt") for role in ("server", "client")
@@ -1310,6 +1368,56 @@ def c09(tier, seed):
             scn["extra"] = [["x-late", "1"]]
         out.append(scn)
         n += 1
+    # calls that are pending for a different reason: a write stopped at the peer's flow-control window
+    # (the peer never reads), an open waiting for stream credit; and Endpoint::close as the local cause
+    extra = []
+    for role in ("server", "client"):
+        for cause in ("peer_close", "local_close", "endpoint_close", "idle", "capsule"):
+            for pend in ("write_blocked", "open_limit", "accepts"):
+                extra.append((role, cause, pend))
+    if tier == "quick":
+        extra = [e for e in extra if e[1] in ("peer_close", "endpoint_close")] + pick(rng, [e for e in extra if e[1] not in ("peer_close", "endpoint_close")], 4)
+    for k, (role, cause, pend) in enumerate(extra):
+        cfg = {"peer_stream_window": 64, "peer_no_read": True} if pend == "write_blocked" else \
+              ({"peer_max_uni": 1} if pend == "open_limit" else {})
+        if cause == "idle":
+            cfg = dict(cfg, idle_ms=700, peer_idle_ms=30000)
+        steps, tags = [], []
+        if pend == "write_blocked":
+            steps += [step("app", "open_uni", tag="sw", ms=4000),
+                      step("app", "spawn", op="write", tag="sw", len=5000, salt=3, ms=6000)]
+            tags.append("sw")
+        elif pend == "open_limit":
+            steps += [step("app", "spawn", op="open_uni", tag="lo", ms=6000)]
+            tags.append("lo")
+        else:
+            steps += [step("app", "spawn", op="accept_uni", tag="p1", ms=6000),
+                      step("app", "spawn", op="closed", tag="p2", ms=6000)]
+            tags += ["p1", "p2"]
+        steps += [sleep(150), {"who": "h", "a": "mark", "name": "cause"}]
+        code = big_codes[(k + 2) % len(big_codes)]
+        if cause == "peer_close":
+            steps.append(step("peer", "close", code=v62(code), reason=list(b"over")))
+        elif cause == "local_close":
+            steps.append(step("app", "close", code=v62(code), reason=list(b"bye")))
+        elif cause == "endpoint_close":
+            steps.append(step("app", "close_endpoint", code=v62(code), reason=list(b"endpoint gone")))
+        elif cause == "capsule":
+            steps.append(step("peer", "write", tag="req", bytes=close_capsule_frame(77, b"c09x")))
+        else:
+            steps.append(sleep(1700))
+        for t in tags:
+            steps.append(step("app", "await", tag=t, ms=7000))
+        steps += [sleep(100), step("app", "accept_uni", tag="l1", ms=5000), step("app", "open_bi", tag="l5", ms=5000),
+                  step("app", "recv_dgram", tag="l3", ms=5000)]
+        if pend == "write_blocked":
+            steps += [step("app", "write", tag="sw", len=3, salt=2, ms=5000), step("app", "finish", tag="sw", ms=5000),
+                      step("app", "finish", tag="sw", ms=5000)]
+        out.append({"scn": "C09-%04d" % n, "role": role, "peer": "raw", "cfg": cfg, "settle_ms": 100,
+                    "meta": {"prop": "C09", "cause": "local_close" if cause == "endpoint_close" else cause,
+                             "variant": cause + "/" + pend, "pending": [pend], "clones": 0},
+                    "steps": steps})
+        n += 1
     nclose = 0
     for pi, (role, cause, ps, clones) in enumerate(plans):
         drop = cause.startswith("drop")
@@ -1374,7 +1482,8 @@ def c09(tier, seed):
                       step("app", "recv_dgram", tag="l3", ms=5000), step("app", "open_uni", tag="l4", ms=5000),
                       step("app", "open_bi", tag="l5", ms=5000), step("app", "closed", tag="l6", ms=5000),
                       step("app", "read", tag="ru", ms=5000, limit=100), step("app", "write", tag="su", len=3, salt=2, ms=5000),
-                      step("app", "finish", tag="su", ms=5000)]
+                      step("app", "finish", tag="su", ms=5000), step("app", "finish", tag="su", ms=5000),
+                      step("app", "stopped", tag="su", ms=5000)]
         out.append({"scn": "C09-%04d" % n, "role": role, "peer": "raw", "cfg": cfg, "settle_ms": 100,
                     "meta": {"prop": "C09", "cause": "drop" if drop else cause, "variant": cause, "pending": ps, "clones": clones},
                     "steps": steps})
